@@ -45,7 +45,8 @@ if mods:
         'LbzVerif.Props.C01.Lbzip2.expand_compress_naive',
         'LbzVerif.Props.C01.Lbzip2.sched_roundtrip',
     ])
-inproc.run_libs(ck, ['w10_mtf', 'w11_prefix', 'w16_transmit', 'w23_roundtrip'])
+inproc.run_libs(ck, ['w10_mtf', 'w11_prefix', 'w16_transmit', 'w23_roundtrip',
+                     'w24_bwt'])
 exe = ck.build_lbzip2(asan=False)
 evals = 0
 seen = set()
